@@ -104,7 +104,7 @@ def run(ctx, rep: Report, deep: bool = False):
     rep.rule = (
         "exhaustive: make_safe_name / make_export_name on every string of length <= 3 (thorough: <= 4) over an 18-character alphabet containing / \\ . : \" ( ) # + a control character; "
         "sanitize_names_general (both passes) on every sibling list of length <= 3 (thorough: <= 4) from a 20-name near-collision pool (names equal after sanitising, equal to a generated '(n)' form, equal to a stereo stem); "
-        "the whole naming pipeline of a directory (export names, then the stereo merge) on sibling lists from the same pool: written names pairwise distinct; random ASCII / AKAI-alphabet names and lists; CDDA end-to-end exports with hostile TITLEs ('../x', separators, duplicates); distinct = distinct op line; non-trivial = list with a collision or a name that needs sanitising"
+        "the whole naming pipeline of a directory (export names, then the stereo merge) on sibling lists from the same pool: written names pairwise distinct; random ASCII / AKAI-alphabet names and lists; CDDA end-to-end exports with hostile TITLEs ('../x', separators, duplicates, stored '.wav' suffixes); AKAI images with equal volume names and names that differ by a stored '.WAV'; distinct = distinct op line; non-trivial = list with a collision or a name that needs sanitising"
     )
     cases = []
     maxlen = 4 if full else 3
@@ -174,14 +174,16 @@ def run(ctx, rep: Report, deep: bool = False):
         rep.feat("sibling_lists_random")
     # CDDA end to end with hostile titles
     hostile = [
+        ["Loop.wav", "Loop"], ["Loop.wav", "Loop.WAV", "Loop.wav"], ["x .wav", "x..wav", "x"],  # S119: a stored extension is part of the name
         ["../esc", "ok"], ["a/b", "a\\b"], ["Same", "Same"], ["x", "x", "x (2)"], ["..", "."], ["C:", "con."], ["  lead", "trail  "],
         [None, "Untitled Track 1"], ["A L", "A R"], ["\x01ctl", "tab\there"], ["/abs", "~"], ["A.", "A"],
     ]
-    for t in hostile[: (len(hostile) if full else 8)]:
+    for t in hostile[: (len(hostile) if full else 11)]:
         oracle_cdda(rep, t)
         rep.feat("cdda_hostile_titles")
     for i in range(ctx.n(6, 60)):
-        oracle_cdda(rep, [FN.random_name(rng, "nasty").replace('"', "").replace("\n", "") or None for _ in range(rng.randint(1, 4))])
+        stem = FN.random_name(rng, "nasty").replace('"', "").replace("\n", "")
+        oracle_cdda(rep, [(rng.choice([stem, FN.random_name(rng, "nasty").replace('"', "").replace("\n", "")]) + rng.choice(["", "", ".wav", ".WAV", ".Wav"])) or None for _ in range(rng.randint(1, 4))])
         rep.feat("cdda_random_titles")
     # whole AKAI images with sibling volumes of one name holding same-named samples (S103): one file per
     # `Exported` line, every component inside the rules
@@ -193,7 +195,7 @@ def run(ctx, rep: Report, deep: bool = False):
         nv = rng.randint(2, 3)
         vols = []
         for v in range(nv):
-            files = [GA.SampleFile(n, GA.random_words(rng, rng.randint(1, 30))) for n in rng.sample(["KICK", "SNARE", "HAT", "FX.1", "A"], rng.randint(1, 3))]
+            files = [GA.SampleFile(n, GA.random_words(rng, rng.randint(1, 30))) for n in rng.sample(["KICK", "SNARE", "HAT", "FX.1", "A", "KICK.WAV", "A.WAV"], rng.randint(1, 4))]
             if rng.random() < 0.5:
                 files += [GA.SampleFile("PAD-L", GA.random_words(rng, 20)), GA.SampleFile("PAD-R", GA.random_words(rng, 20))]
             vols.append(GA.Volume(rng.choice(["DRUMS", "DRUMS", "VOL.", "KEYS"]), files))
